@@ -1273,9 +1273,17 @@ class PDFPageInterpreter:
             else:
                 resources = self.resources.copy()
             self.device.begin_figure(xobjid, bbox, matrix)
+            # a form is painted with the graphics state in force at Do
+            # (ISO 32000-1 8.10.1); only the CTM is modified by its Matrix
             interpreter.render_contents(
                 resources,
                 [xobj],
+                inherited=(
+                    self.textstate.copy(),
+                    self.graphicstate.copy(),
+                    self.scs,
+                    self.ncs,
+                ),
                 ctm=mult_matrix(matrix, self.ctm),
             )
             # the form's interpreter pointed the shared device at its own CTM
@@ -1312,10 +1320,21 @@ class PDFPageInterpreter:
         resources: Dict[object, object],
         streams: Sequence[object],
         ctm: Matrix = MATRIX_IDENTITY,
+        inherited: Optional[
+            Tuple[
+                PDFTextState,
+                PDFGraphicState,
+                Optional[PDFColorSpace],
+                Optional[PDFColorSpace],
+            ]
+        ] = None,
     ) -> None:
         """Render the content streams.
 
         This method may be called recursively.
+
+        :param inherited: text state, graphic state and colour spaces a form
+            XObject starts with (those of its caller); a page starts afresh.
         """
         log.debug(
             "render_contents: resources=%r, streams=%r, ctm=%r",
@@ -1325,6 +1344,8 @@ class PDFPageInterpreter:
         )
         self.init_resources(resources)
         self.init_state(ctm)
+        if inherited is not None:
+            (self.textstate, self.graphicstate, self.scs, self.ncs) = inherited
         self.execute(list_value(streams))
 
     def execute(self, streams: Sequence[object]) -> None:
